@@ -141,10 +141,29 @@ def run(args):
     ncase = int((10 if args.tier == 'quick' else 300) * args.scale) or 1
     tmpdir = tempfile.mkdtemp(prefix='vt-c16-')
     try:
+        # a dependency whose GIR names cannot be derived from its C names (cairo style: odd_t -> Odd.Context): references to
+        # it are resolved through the dependency's C-type table, which must survive the pickle cache
+        incdir = os.path.join(tmpdir, 'inc')
+        os.makedirs(incdir)
+        from ..scan import GIR_HEAD
+        with open(os.path.join(incdir, 'Odd-1.0.gir'), 'w') as f:
+            f.write(GIR_HEAD + '<namespace name="Odd" version="1.0" c:identifier-prefixes="odd" c:symbol-prefixes="odd">'
+                    '<record name="Context" c:type="odd_t"><field name="x" writable="1"><type name="gint" c:type="gint"/></field></record>'
+                    '<record name="Surface" c:type="OddSurface"><field name="x" writable="1"><type name="gint" c:type="gint"/></field></record>'
+                    '<alias name="Handle" c:type="odd_handle_t"><type name="gint" c:type="gint"/></alias>'
+                    '<enumeration name="Status" c:type="odd_status_t"><member name="ok" value="0" c:identifier="ODD_STATUS_OK"/></enumeration>'
+                    '</namespace></repository>\n')
         items = []
         meta = {}
         for ci in range(ncase):
             lib, feats = gen_case(args.seed, ci)
+            if ci % 2 == 0:
+                lib['includes'] = list(lib['includes']) + ['Odd-1.0']
+                lib['include_paths'] = [incdir]
+                lib['headers'] = [(lib['headers'][0][0], lib['headers'][0][1] + 'typedef struct _odd odd_t;\ntypedef struct _OddSurface OddSurface;\n'
+                                   'typedef int odd_handle_t;\ntypedef enum { ODD_STATUS_OK } odd_status_t;\n'
+                                   'void foo_draw (odd_t *ctx, OddSurface *surface);\nodd_status_t foo_status (odd_handle_t h);\nodd_t *foo_get_context (void);\n')]
+                feats['odd_dependency'] = 1
             rng = core.rng_for(args.seed, 'c16v', ci)
             cache_home = os.path.join(tmpdir, 'cache-%d' % ci)
             os.makedirs(cache_home)
@@ -200,7 +219,7 @@ def run(args):
                 if a != b:
                     chk.violation('differs:' + vname.split('=')[0], 'output differs between reference run and variant %s: %s' % (vname, first_diff(a, b)),
                                   {'variant': vname, 'lib': l, 'reference_lib': lib})
-                chk.cls('%s|cls=%d|cs=%d|if=%d|derived-sp=%d' % (vname.split('=')[0], feats['classes'], feats['class_structs'], feats['ifaces'], feats.get('derived_symbol_prefixes', 0)))
+                chk.cls('%s|cls=%d|cs=%d|if=%d|derived-sp=%d' % (vname.split('=')[0], feats['classes'], feats['class_structs'], feats['ifaces'], feats.get('derived_symbol_prefixes', 0)) + ('|odd-dep' if feats.get('odd_dependency') else ''))
             if ci < 2:
                 chk.sample({'variants': [v[0] for v in vs], 'shape': feats, 'sha256_reference': hashlib.sha256(ref['gir'].encode()).hexdigest()})
         chk.extra['harness_failures'] = hf[:5]
